@@ -190,9 +190,9 @@ def structured_cases():
     b.reload()
     b.touch([MODULES, 60]); b.reload()
     b.write([APPS, 40, 50], [A(60)], keep_mtime=True); b.reload()
-    b.cfg = {"40": 2}; b.reload()
+    b.cfg = {"40": 2}; b.reload(); b.reload()                # the app writes to its pyscript.app_config: still unchanged
     b.cfg = {}; b.reload()
-    b.cfg = {"40": 2}; b.reload()
+    b.cfg = {"40": 3}; b.reload(); b.touch([10]); b.reload()
     out.append(b.case(legacy=True, tags=["app-sibling-module"]))
     # 3 package replacing module form (module and app), and back
     b = Builder()
